@@ -13,6 +13,24 @@ ENGINES = [
 ]
 
 CHECKS = [
+    {"id": "C05", "engine": "E0 tables + E6 table algebra + templates",
+     "technique": "static extraction of the 26-slot condition model, permutation schedules, cone tables and operator tables; exhaustive exact comparison on cone points; sign-definiteness of cone generators over metric families",
+     "text": "Table half, exact and exhaustive over 237 settings: the reflection-condition model (re-extracted from sysabs_unique and "
+             "sysabs on every run) with each setting's syscond vector must agree with extinction by the tabulated operators on "
+             "every lattice point of the setting's traversal cones in a box (8 quick, 24 thorough); the seven R settings must be "
+             "conjugate under the obverse transformation; genhkl_all's expansion must use rot[:nuniq] and negatives on the right "
+             "of the hkl row with unique() de-duplication. Completeness of the walk is decided as a precondition: apex and "
+             "generators of every cone pairwise non-obtuse in every conforming reciprocal metric (exact per metric family). "
+             "Which reflections one particular oblique cell loses is not decided.",
+     "note": "Trusted: C04; numpy unique/dot/concatenate. 31 known findings (early exit unsound for Laue -1, 2/m, rhombohedral -3, -3m)."},
+    {"id": "C06", "engine": "E0 tables + E6 table algebra + E4 must-analysis",
+     "technique": "orbit enumeration proving the cones a fundamental domain of each setting's Laue group; path-sensitive in-sync dataflow over the loop nest; operator/sort templates",
+     "text": "For every setting the union of the Laue class's cones is proven to meet every orbit of {R} u {-R} (the setting's own "
+             "first nuniq rotations, acting on the right) exactly once on all points of a box (4 quick, 10 thorough), with exact "
+             "unimodular membership so orbit members outside the box are handled; the Laue/cell_choice dispatch is exhaustive; the "
+             "shell test has the exclusive/inclusive operators; a forward must-analysis (trace-partitioned by the loop flags) proves "
+             "that at every append the stored sin(theta)/lambda is that of the stored hkl; sort and genhkl_unique templates.",
+     "note": "Trusted: C04, C05 (same caveat on early exit); numpy argsort/concatenate."},
     {"id": "C11", "engine": "E5 finite-configuration abstract interpretation",
      "technique": "enumeration of all 81 orientation matrices with concrete parameters; dihedral index-map domain for images, affine normal forms for coordinates",
      "text": "Exhaustive over the 81 matrices x 2 directions x 4 functions: with concrete o11..o22 every branch folds, images are "
